@@ -58,7 +58,7 @@ def build(sc):
             exp["sections"]["Other"] = ["text", "\n".join(sec["text"])]
         elif k == "A":
             for i in range(sc["rows"]):
-                lines.append(" " + " ".join("%d" % (i * 1000 + j + 1) for j in range(sc["cols"])))
+                lines.append(" " + (" " * sc.get("pad", 1)).join("%d" % (i * 1000 + j + 1) for j in range(sc["cols"])) + " " * (sc.get("pad", 1) - 1))
         if sec.get("stray"):
             lines.append(sec["stray"])            # a line lasio cannot parse, as the very last line of the section
         else:
@@ -148,7 +148,8 @@ class C05(Prop):
                 if s0["kind"] in ("V", "W", "P", "X"):
                     s0["stray"] = g.choice(["stray words without separators", "end of block", "xx"])
                     stray = True
-        return {"stray": stray, "vers": vers, "sections": [v] + pool, "cols": cols, "rows": rows, "final_newline": g.random() < 0.7,
+        return {"pad": g.choice([4100, 4100, 8200]) if g.random() < 0.012 else 1,     # physical data lines longer than 4096 / 8192 characters
+                "stray": stray, "vers": vers, "sections": [v] + pool, "cols": cols, "rows": rows, "final_newline": g.random() < 0.7,
                 "nkw": neutral_read_kw(g, exclude=("ignore_data",)), "engine": g.choice(["numpy", "normal"]), "ignore_data": g.random() < 0.15, "case": g.choice(["preserve", "preserve", "upper", "lower"]),
                 "channel": draw_read_channel(g, ascii_only=True),
                 # the reading LASFile object has read another file (with V, W, C, P, O, A sections) before
